@@ -3035,6 +3035,10 @@ const (
 
 // Format formats the node.
 func (node *BinaryExpr) Format(buf *TrackedBuffer) {
+	if node.Operator == ArrayElement {
+		buf.Myprintf("%v[%v]", node.Left, node.Right)
+		return
+	}
 	buf.Myprintf("%v %s %v", node.Left, node.Operator, node.Right)
 }
 
